@@ -272,4 +272,19 @@ func init() {
 		Assumptions: []string{"sync.Mutex/RWMutex, channels, errgroup.Go/Wait and GOMAXPROCS are modelled by the scheduler (3.3); a scanner and a ReadSeeker written in the harness stand for the XML/PBF readers"},
 		Outside:     []string{"XML/PBF parsing", "larger documents, more than two workers", "data races (accesses outside any lock) are not searched for"},
 	})
+	reg(&Property{
+		ID: "C20", Pkgs: []string{"proj"}, Level: "translation_validation",
+		Opts: []HarnessOpt{{Prefix: "VH_C20_", Mode: "U", IfConv: true, MaxUnwind: 60, MaxSteps: 50_000_000}},
+		Rule: "one evaluation = one explored path (projection, linear unit, number of TOWGS84 terms, outcome of the ellipsoid/datum tests) with every numeric parameter a free finite double; the two programs compared are the PROJ.4 parser and the WKT parser (each followed by DeriveConstants); non-trivial = path ends with every field comparison discharged",
+		Bounds: map[string]string{
+			"projections": "Mercator_1SP, Lambert_Conformal_Conic_2SP, Albers_Conic_Equal_Area, Equidistant_Conic, Transverse_Mercator, and geographic",
+			"units":       "metre, foot (thorough: US survey foot)",
+			"datum":       "spheroid (a, 1/f) symbolic; TOWGS84 with 0, 3 or 7 symbolic terms",
+		},
+		Assumptions: []string{
+			"numeric literals are plain decimals that strconv.ParseFloat maps back to the float (placeholder tokens in the definition strings)",
+			"mode U: field equality holds for every interpretation of float arithmetic; equal fields are a sufficient condition for the transformers to agree exactly",
+		},
+		Outside: []string{"(*shp.Decoder).SR (reads a .prj file)", "definitions naming a datum or ellipsoid by name"},
+	})
 }
